@@ -1,6 +1,7 @@
 package vc
 
 import (
+	"sort"
 	"go/constant"
 	"go/ast"
 	"fmt"
@@ -1055,6 +1056,13 @@ func (f *frame) atCallAssertionsNamed(n *node, in *ssa.Call, id, full string, ar
 		if cl.Callee != id && (full == "" || cl.Callee != full) {
 			continue
 		}
+		if cl.Site >= 0 && f.callSiteOrdinal(in, id, full) != cl.Site {
+			continue
+		}
+		if x.atCallSeen == nil {
+			x.atCallSeen = map[*Clause]int{}
+		}
+		x.atCallSeen[cl]++
 		fn := x.w.ClauseFn[cl.GoFunc]
 		if fn == nil {
 			unsup("clause function %s not found", cl.GoFunc)
@@ -1209,4 +1217,38 @@ func (f *frame) localAt(at ssa.Instruction, name string) ssa.Value {
 		}
 	}
 	return nil
+}
+
+// callSiteOrdinal numbers the calls of one callee inside the function in source order.
+func (f *frame) callSiteOrdinal(at *ssa.Call, id, full string) int {
+	var sites []*ssa.Call
+	for _, b := range f.fn.Blocks {
+		for _, ins := range b.Instrs {
+			c, ok := ins.(*ssa.Call)
+			if !ok {
+				continue
+			}
+			cid, cfull := "", ""
+			if c.Call.IsInvoke() {
+				cid = ifaceMethodID(Val{T: c.Call.Value.Type()}, c.Call.Method)
+			} else if callee := c.Call.StaticCallee(); callee != nil {
+				if callee.Origin() != nil {
+					callee = callee.Origin()
+				}
+				cid, cfull = funcID(callee), fullName(callee)
+			} else {
+				continue
+			}
+			if cid == id || (full != "" && cfull == full) {
+				sites = append(sites, c)
+			}
+		}
+	}
+	sort.SliceStable(sites, func(i, j int) bool { return sites[i].Pos() < sites[j].Pos() })
+	for i, c := range sites {
+		if c == at {
+			return i
+		}
+	}
+	return -1
 }
